@@ -1138,6 +1138,20 @@ func main() {
 	if c.Thorough() {
 		maxDepth, maxTx = 5, func(n int) int { return min(n, 4) }
 	}
+	// two sessions, sequentially interleaved, with DDL committed by the second one (package sqlconc, twosess.go):
+	// constraints declared by a committed DDL are enforced whatever other session was open meanwhile
+	{
+		d := 4
+		if c.Thorough() {
+			d = 5
+		}
+		seqDeadline := c.Deadline
+		c.Deadline = c.Start.Add(fullDeadline.Sub(c.Start) * 15 / 100)
+		sqlconc.TwoSessions(c, "C12", d, func(class string) bool {
+			return strings.Contains(class, "unique") || strings.Contains(class, "statement-result") || strings.Contains(class, "duplicate-pk")
+		})
+		c.Deadline = seqDeadline
+	}
 	explore(all, maxDepth, maxTx)
 	// concurrent sessions under the controlled scheduler (engine E1, package sqlconc)
 	seqDone := !c.Expired()
